@@ -87,7 +87,16 @@ pub fn exec(line: &str) -> String {
                 let old = w.take();
                 let p = path.clone();
                 let r = guarded(AssertUnwindSafe(move || { drop(old); ShmWriter::new(std::path::Path::new(&p)).expect("writer") }));
-                match r { Ok(nw) => { w = Some(nw); out.push("r".into()); } Err(_) => return format!("{} ; r panic", out.join(" ; ")) }
+                match r {
+                    Ok(nw) => {
+                        w = Some(nw);
+                        // the generation word the restarted daemon goes on from
+                        let mut g = [0u8; 2];
+                        let _ = std::fs::File::open(&path).and_then(|f| f.read_exact_at(&mut g, 14));
+                        out.push(format!("r {}", u16::from_ne_bytes(g)));
+                    }
+                    Err(_) => return format!("{} ; r panic", out.join(" ; ")),
+                }
             }
             "g" => { poke_u16(&path, 14, parse_ints(&t[1..])[0] as u16); out.push("p".into()); }
             "v" => { poke_u16(&path, 12, parse_ints(&t[1..])[0] as u16); out.push("p".into()); }
